@@ -102,6 +102,23 @@ pub fn install_panic_hook() {
     }));
 }
 
+/// library panics caught in this process (a panic costs microseconds and takes a process-wide
+/// lock in the unwinder: a change that panics on a large share of the inputs would otherwise turn
+/// a run of seconds into one that hits the driver's wall-clock cap and ends "inconclusive")
+static PANICS: std::sync::atomic::AtomicU64 = std::sync::atomic::AtomicU64::new(0);
+
+pub fn panic_budget() -> u64 {
+    std::env::var("VERIF_PANIC_BUDGET").ok().and_then(|v| v.parse().ok()).unwrap_or(150_000)
+}
+
+/// true once more library panics were caught than the budget allows: case loops stop generating
+/// (the run already holds the panics as failures wherever the property is about them; a check
+/// that does not judge panics ends inconclusive, see `finish`)
+pub fn over_panic_budget() -> bool {
+    static LIMIT: std::sync::OnceLock<u64> = std::sync::OnceLock::new();
+    PANICS.load(std::sync::atomic::Ordering::Relaxed) > *LIMIT.get_or_init(panic_budget)
+}
+
 /// Run `f`; a panic becomes Err(PanicInfo).
 pub fn guard<T>(f: impl FnOnce() -> T) -> Result<T, PanicInfo> {
     IN_GUARD.with(|g| *g.borrow_mut() += 1);
@@ -109,11 +126,14 @@ pub fn guard<T>(f: impl FnOnce() -> T) -> Result<T, PanicInfo> {
     IN_GUARD.with(|g| *g.borrow_mut() -= 1);
     match r {
         Ok(v) => Ok(v),
-        Err(_) => Err(LAST_PANIC.with(|p| p.borrow_mut().take()).unwrap_or(PanicInfo {
-            file: "<unknown>".into(),
-            line: 0,
+        Err(_) => {
+            PANICS.fetch_add(1, std::sync::atomic::Ordering::Relaxed);
+            Err(LAST_PANIC.with(|p| p.borrow_mut().take()).unwrap_or(PanicInfo {
+                file: "<unknown>".into(),
+                line: 0,
             msg: "<panic>".into(),
-        })),
+            }))
+        }
     }
 }
 
@@ -339,6 +359,10 @@ pub fn par_range(n: u64, f: impl Fn(u64, &mut Stats) + Sync + Send) -> Stats {
             let lo = c * chunk;
             let hi = (lo + chunk).min(n);
             for i in lo..hi {
+                if over_panic_budget() {
+                    st.class_n("cases not run: library-panic budget used up", hi - i);
+                    break;
+                }
                 f(i, &mut st);
             }
             st
@@ -395,6 +419,10 @@ where
             let lo = c * chunk;
             let hi = (lo + chunk).min(n);
             for i in lo..hi {
+                if over_panic_budget() {
+                    st.class_n("cases not run: library-panic budget used up", hi - i);
+                    break;
+                }
                 let mut runner = TestRunner::new_with_rng(pt_config(), case_rng(seed, phase, i));
                 let Ok(tree) = strat.new_tree(&mut runner) else { continue };
                 let before = st.fail_total;
@@ -707,6 +735,13 @@ pub fn finish(cfg: &Cfg, mut st: Stats, rule: &str, assumptions: &[&str], replay
         known_hits,
         wall
     );
+    if over_panic_budget() {
+        println!("run cut short: the library panicked more than {} times in this process", panic_budget());
+        if violations == 0 {
+            println!("INCONCLUSIVE (not a violation of {}): the panics were in calls this check does not judge (C01 does)", cfg.prop);
+            return 2;
+        }
+    }
     if !st.oracle_errors.is_empty() {
         for e in &st.oracle_errors {
             println!("ORACLE-ERROR (inconclusive, not a violation): {e}");
